@@ -615,6 +615,9 @@ class Evaluator:
             if op in ("==", "!=", "<", ">", "<=", ">="):
                 return {"==": a == b, "!=": a != b, "<": a < b, ">": a > b, "<=": a <= b, ">=": a >= b}[op]
             return self.arith(op, a, b)
+        if op in ("==", "!=") and (a is None) != (b is None) and not isinstance(a if b is None else b, (int, bool, float, str, bytes, tuple)):
+            # a pointer to a modelled object compared with nullptr: the object exists, the pointer is not null
+            return op == "!="
         if isinstance(a, tuple) and isinstance(b, tuple) and len(a) == len(b) and op in ("==", "!=", "<", ">", "<=", ">=") \
            and not (a and a[0] == "enum") and all(isinstance(x, (int, bool)) for x in a + b):
             # std::tuple of integers: lexicographic, as the standard defines its relational operators
